@@ -168,6 +168,43 @@ func H_C12_cam() {
 	c01Compare(final, vReadAll(s), "after")
 }
 
+// H_C12_atomic: the selected branch holds two mutations; if either is invalid nothing is stored.
+func H_C12_atomic() {
+	now := vNondetInt64("now")
+	vAssume(now >= 0)
+	nowMs := now - now%1000
+	s := vNewServer(vEngLeveldbMem, func() bigtable.Timestamp { return bigtable.Timestamp(now) })
+	vCreateTable(s, "f", "g")
+	keys := [][]byte{[]byte("r")}
+	quals := c01Keys("qual", 2, 1)
+	m := newMState(keys, quals)
+	cells := c12Seed(s, m)
+	post := m.clone()
+	inv := false
+	var muts []*btpb.Mutation
+	for i := 0; i < 2; i++ {
+		mm := c01MutationOf(quals, nowMs, 1, 1)
+		muts = append(muts, mm.pb)
+		inv = vOr(inv, mm.invalid)
+		mm.apply(post, 0)
+	}
+	req := &btpb.CheckAndMutateRowRequest{TableName: vTable, RowKey: keys[0]}
+	matched := len(cells) > 0 // no predicate: the row has any cell
+	if matched {
+		req.TrueMutations = muts
+	} else {
+		req.FalseMutations = muts
+	}
+	resp, err := s.CheckAndMutateRow(vCtx(), req)
+	vAssert((err != nil) == inv, "atomic:error-iff-some-selected-mutation-invalid")
+	if err == nil && resp != nil {
+		vAssert(resp.PredicateMatched == matched, "atomic:predicate-matched")
+	}
+	c01Compare(mSelect(inv, m, post), vReadAll(s), "atomic")
+	vReach("c12-atomic")
+}
+
 func init() {
 	vHarnesses["H_C12_cam"] = H_C12_cam
+	vHarnesses["H_C12_atomic"] = H_C12_atomic
 }
